@@ -144,7 +144,7 @@ Fixpoint b64_enc (s : bytes) : bytes :=
   end.
 
 (* ------------------------------------------------------------------ SASL mechanisms (pysasl): a parameter *)
-Record creds := { cr_kind : N;          (* 0 PlainCredentials, 1 CramMD5Result *)
+Record creds := { cr_kind : N;          (* 0 PlainCredentials, 1 CramMD5Result, 2/3 harness token mechanisms *)
                   cr_cid : bytes;       (* authcid, UTF-8 *)
                   cr_secret : bytes;    (* secret / CRAM digest *)
                   cr_zid : bytes }.     (* authzid / CRAM challenge *)
@@ -549,12 +549,32 @@ Definition N_PLAIN : bytes := [80; 76; 65; 73; 78].
 Definition N_LOGIN : bytes := [76; 79; 71; 73; 78].
 Definition N_CRAM : bytes := [67; 82; 65; 77; 45; 77; 68; 53].
 
-(* SASLAuth.named([b'PLAIN', b'LOGIN', b'CRAM-MD5'][:k]) with slimta.smtp.auth.insecure_mechanisms *)
-Definition std_mechs (cram : bool) (msgid : bytes) (n : bytes) : option mech :=
+(* A site / plug-in mechanism of the harness (harness/props/c08.py TokenMechanism): one
+   challenge "Token:", the answer is the token; kind 2: the mechanism object says
+   insecure = True, kind 3: it says False or has no such attribute and its name is not in
+   slimta.smtp.auth.insecure_mechanisms *)
+Definition S_TOKEN : bytes := [84; 111; 107; 101; 110; 58].
+Definition token_attempt (kind : N) (resps : list (bytes * bytes)) : mres :=
+  match resps with
+  | [] => MChal S_TOKEN
+  | (_, r) :: _ => if is_utf8 r then MCreds {| cr_kind := kind; cr_cid := r; cr_secret := []; cr_zid := r |}
+                   else MValueErr
+  end.
+Definition N_TOK_I : bytes := [88; 45; 84; 79; 75; 45; 73].      (* X-TOK-I  insecure = True *)
+Definition N_TOK_S : bytes := [88; 45; 84; 79; 75; 45; 83].      (* X-TOK-S  insecure = False *)
+Definition N_TOK_N : bytes := [88; 45; 84; 79; 75; 45; 78].      (* X-TOK-N  no attribute *)
+
+(* SASLAuth.named([b'PLAIN', b'LOGIN', b'CRAM-MD5', ...]): `insecure` is the mechanism object's
+   own attribute if it has one, else membership of its name in slimta.smtp.auth.insecure_mechanisms *)
+Definition std_mechs_tok (cram tok : bool) (msgid : bytes) (n : bytes) : option mech :=
   if beqb n N_PLAIN then Some {| m_insecure := true; m_attempt := plain_attempt |}
   else if beqb n N_LOGIN then Some {| m_insecure := true; m_attempt := login_attempt |}
   else if cram && beqb n N_CRAM then Some {| m_insecure := false; m_attempt := cram_attempt msgid |}
+  else if tok && beqb n N_TOK_I then Some {| m_insecure := true; m_attempt := token_attempt 2 |}
+  else if tok && beqb n N_TOK_S then Some {| m_insecure := false; m_attempt := token_attempt 3 |}
+  else if tok && beqb n N_TOK_N then Some {| m_insecure := false; m_attempt := token_attempt 3 |}
   else None.
+Definition std_mechs (cram : bool) (msgid : bytes) : bytes -> option mech := std_mechs_tok cram false msgid.
 
 (* ------------------------------------------------------------------ client side
    Client.custom_command(b'STARTTLS') / Client.encrypt / IO.encrypt_socket_client (fixed) and
